@@ -327,3 +327,85 @@ pub proof fn lemma_outer_to_post(f: PatchedFile, out: Seq<LineChange>, o: Seq<Or
 {
     reveal(inv_outer);
 }
+
+// ---- KF2: every removed line is accounted for (under the carve-out) --------------------------------
+/// start of the run of removed lines that contains position k
+pub open spec fn rem_start(ls: Seq<Line>, k: int) -> int
+    decreases k
+{
+    if k <= 0 || kind(ls[k - 1]) != Kind::Rem { k } else { rem_start(ls, k - 1) }
+}
+/// first position >= k that is not a removed line
+pub open spec fn rem_end(ls: Seq<Line>, k: int) -> int
+    decreases ls.len() - k
+{
+    if k >= ls.len() || kind(ls[k]) != Kind::Rem { k } else { rem_end(ls, k + 1) }
+}
+/// first position >= k that is not an added line
+pub open spec fn add_end(ls: Seq<Line>, k: int) -> int
+    decreases ls.len() - k
+{
+    if k >= ls.len() || kind(ls[k]) != Kind::Add { k } else { add_end(ls, k + 1) }
+}
+
+pub proof fn lemma_rem_start(ls: Seq<Line>, k: int)
+    requires 0 <= k < ls.len(), kind(ls[k]) == Kind::Rem,
+    ensures
+        0 <= rem_start(ls, k) <= k,
+        rem_start(ls, k) == 0 || kind(ls[rem_start(ls, k) - 1]) != Kind::Rem,
+        forall|j: int| rem_start(ls, k) <= j <= k ==> kind(#[trigger] ls[j]) == Kind::Rem,
+    decreases k
+{
+    if k > 0 && kind(ls[k - 1]) == Kind::Rem { lemma_rem_start(ls, k - 1); }
+}
+
+pub proof fn lemma_rem_end(ls: Seq<Line>, k: int)
+    requires 0 <= k <= ls.len(),
+    ensures
+        k <= rem_end(ls, k) <= ls.len(),
+        rem_end(ls, k) == ls.len() || kind(ls[rem_end(ls, k)]) != Kind::Rem,
+        forall|j: int| k <= j < rem_end(ls, k) ==> kind(#[trigger] ls[j]) == Kind::Rem,
+    decreases ls.len() - k
+{
+    if k < ls.len() && kind(ls[k]) == Kind::Rem { lemma_rem_end(ls, k + 1); }
+}
+
+pub proof fn lemma_add_end(ls: Seq<Line>, k: int)
+    requires 0 <= k <= ls.len(),
+    ensures
+        k <= add_end(ls, k) <= ls.len(),
+        add_end(ls, k) == ls.len() || kind(ls[add_end(ls, k)]) != Kind::Add,
+        forall|j: int| k <= j < add_end(ls, k) ==> kind(#[trigger] ls[j]) == Kind::Add,
+    decreases ls.len() - k
+{
+    if k < ls.len() && kind(ls[k]) == Kind::Add { lemma_add_end(ls, k + 1); }
+}
+
+/// Every removed line lies in a replace group or in a pure-deletion run; under the KF2 carve-out
+/// the former are all paired, the latter have their entry.
+pub proof fn lemma_removed_accounted(f: PatchedFile, out: Seq<LineChange>, o: Seq<Orig>)
+    requires
+        kf2_carve_out(f),
+        post_every_pure_deletion(f, o),
+    ensures
+        post_removed_accounted(f, out, o),
+{
+    assert forall|h: int, k: int| 0 <= h < f.spec_hunks().len() && 0 <= k < hunk_lines(f, h).len()
+        && kind(#[trigger] hunk_lines(f, h)[k]) == Kind::Rem implies removed_accounted(f, out, o, h, k) by {
+        let ls = hunk_lines(f, h);
+        lemma_rem_start(ls, k);
+        lemma_rem_end(ls, k);
+        let gs = rem_start(ls, k);
+        let fa = rem_end(ls, k);
+        lemma_add_end(ls, fa);
+        let ge = add_end(ls, fa);
+        assert forall|j: int| gs <= j < fa implies kind(#[trigger] ls[j]) == Kind::Rem by {}
+        if ge == fa {
+            assert(pure_del_run(ls, gs, fa));
+            assert(has_entry(o, h, gs));
+        } else {
+            assert(replace_group(ls, gs, fa, ge));
+            assert(fa - gs <= ge - fa);
+        }
+    }
+}
